@@ -17,7 +17,8 @@
 EXTENDS Kabsch, FiniteSetsExt, SequencesExt, TLC, Json, IOUtils
 
 CONSTANTS NBlocks, NetMax
-Traces == JsonDeserialize(IOEnv.TRACE_FILE).traces
+ASSUME TLCSet(1, JsonDeserialize(IOEnv.TRACE_FILE).traces)     \* parsed once, not once per worker
+Traces == TLCGet(1)
 Net == RotNet(NetMax)
 
 VARIABLES blk, tid
